@@ -60,7 +60,7 @@ DIRECTED = [
     '{i:zz}', '{s:zz}', '{s:5 }', '{i:>>5}', '{s!r:>8}', '{s!a:>12}', '{d!r}', '{d!s}', '{t!r}', '{l!r}', '{n!r}', '{r1!r}',
     '{r1!r:rf}', '{r1!s}', '{d!r:ff}', '{a} }', '{zz} }', '{i} {', '{i}{zz}', '{zz}{i:q}', '{s:q}{zz}', '{i!x}{zz}',
     '{l[0]x}', '{l[0].}', '{l[', '{l[0]', '{l!', '{l!r', '{l:', '{l:{', '{l!r:', '{l!rx}', '{l!r }', '{ i}', '{i }', '{i:}', '{i!r:}',
-    '{s[0]}{s[1]}{s[2]}', 'é{s}€', '{s:é>6}', '{s:é^7}', '{i:😀<4}',
+    'x{i:{d[k]:{i}}}', 'x{i:{w:{i:{i}}}}', 'x{i:{w:{d[k]}}}', '{i:{w:{d[k]}}}', 'x{s:>{w:{d[k]}}}', '{i:{w}}{i:{d[k]:{w}}}', '{s[0]}{s[1]}{s[2]}', 'é{s}€', '{s:é>6}', '{s:é^7}', '{i:😀<4}',
 ]
 
 
